@@ -124,26 +124,29 @@ func vC09_stop() {
 	}
 	var suspended [4]bool
 	for i := 0; i < 4; i++ {
-		suspended[i] = vNondetBool("suspended")
+		suspended[i] = (vCase("suspended")>>i)&1 == 1 // case split: a symbolic liveness bit blurs every state-word test of the stop path
 		if suspended[i] {
 			p[i].setState(suspendedState, true)
 		}
 	}
-	// an arbitrary additional watch relation between the four actors (on top of parent-watches-child)
-	var watches [4][4]bool
-	for w := 0; w < 4; w++ {
+	// two bystanders (children of the guardian, never stopped) that watch an ARBITRARY subset of the four actors; the second
+	// one is suspended (so it must not be notified)
+	var o [2]*PID
+	var watches [2][4]bool
+	o[0], o[1] = vT_mkPID(sys, "o0"), vT_mkPID(sys, "o1")
+	o[1].setState(suspendedState, true)
+	for w := 0; w < 2; w++ {
+		vAssert(tr.addNode(root, o[w]) == nil, "bystander registers")
+		tr.addWatcher(o[w], dw)
 		for t := 0; t < 4; t++ {
-			if w == t {
-				continue
-			}
-			watches[w][t] = par[t] == w
-			if par[t] != w && vNondetBool("watches") {
-				tr.addWatcher(p[t], p[w])
-				watches[w][t] = true
+			watches[w][t] = vNondetBool("watches")
+			if watches[w][t] {
+				tr.addWatcher(p[t], o[w])
 			}
 		}
 	}
-	vC09_inv(tr, root, dw, &p, "before")
+	allBefore := [8]*PID{root, dw, o[0], o[1], p[0], p[1], p[2], p[3]}
+	vC09_invOf(tr, allBefore[:])
 
 	target := vCase("target") // which actor is stopped: case split (a symbolic target makes the executor run all four stops on a blurred tree)
 	vC09_nev, vC09_egTop, vT_sent = 0, 0, nil
@@ -195,7 +198,7 @@ func vC09_stop() {
 	}
 	// the death watch got one Terminated per stopped actor, in PostStop order; it removes them from the tree
 	ndw := 0
-	for k := 0; k < len(vT_sent) && k < 8; k++ {
+	for k := 0; k < len(vT_sent) && k < 12; k++ {
 		if vT_sent[k].to == dw {
 			ndw++
 		}
@@ -218,29 +221,38 @@ func vC09_stop() {
 		_, byName := tr.nodeByName(p[i].Name())
 		vAssert(byID == !inSub[i] && byName == !inSub[i], "exactly the stopped actors are no longer registered / resolvable by name")
 	}
-	vAssert(tr.count() == int64(2+4-size), "the node counter follows")
-	vC09_inv(tr, root, dw, &p, "after")
+	vAssert(tr.count() == int64(2+2+4-size), "the node counter follows")
+	all := [8]*PID{root, dw, o[0], o[1], p[0], p[1], p[2], p[3]}
+	vC09_invOf(tr, all[:])
 	// the parent of the stopped actor (it was not stopping it itself) is notified once; nobody inside the subtree is notified
 	nToRoot := 0
-	for k := 0; k < len(vT_sent) && k < 8; k++ {
+	for k := 0; k < len(vT_sent) && k < 12; k++ {
 		if vT_sent[k].to == root {
 			nToRoot++
 		}
 	}
-	for w := 0; w < 4; w++ {
-		for t := 0; t < 4; t++ {
-			if w == t {
-				continue
-			}
-			got := vT_terminatedTo(p[w], p[t])
-			if inSub[t] && !inSub[w] && watches[w][t] && !suspended[w] {
+	for t := 0; t < 4; t++ {
+		for w := 0; w < 2; w++ {
+			got := vT_terminatedTo(o[w], p[t])
+			if inSub[t] && watches[w][t] && w == 0 {
 				vAssert(got == 1, "a running watcher outside the stopped subtree receives exactly one Terminated for each stopped actor it watches")
 				vCover("watcher-notified")
-			} else if inSub[t] && inSub[w] && watches[w][t] && !anc[t][w] {
-				// a watcher that is itself being stopped (not an ancestor of t): notified or not depending on which of the two stops first
-				vAssert(got <= 1, "a watcher inside the stopped subtree is notified at most once")
 			} else {
-				vAssert(got == 0, "nobody else is sent a Terminated: not the ancestors that are stopping the actor (a parent unwatches the child it stops), not suspended or non-watching actors")
+				vAssert(got == 0, "a bystander that does not watch the actor, or is suspended, or watches an actor that was not stopped, is sent nothing")
+			}
+			if inSub[t] && watches[w][t] && w == 0 {
+				vAssert(!vT_contains(tr.watchees(o[w]), p[t]), "a notified watcher no longer lists the dead actor among its watchees")
+			}
+		}
+		for w := 0; w < 4; w++ {
+			if w != t {
+				got := vT_terminatedTo(p[w], p[t])
+				if inSub[t] && !inSub[w] && par[t] == w && !suspended[w] {
+					vAssert(got == 1 && t == target, "the running parent of the stopped actor is notified once")
+					vCover("parent-notified")
+				} else {
+					vAssert(got == 0, "no other actor of the tree is sent a Terminated (a parent unwatches the child it stops itself)")
+				}
 			}
 		}
 	}
